@@ -213,10 +213,11 @@ Fixpoint dset (k : pykey) (v : pyval) (d : dict) : dict :=
 Definition dupdate (d : dict) (o : list (pykey * pyval)) : dict :=
   fold_left (fun acc kv => dset (fst kv) (snd kv) acc) o d.
 Definition dict_of_list (l : list (pykey * pyval)) : dict := dupdate [] l.
+(* frozenset(keys): of two equal keys (1 and True) the first one stays *)
 Fixpoint kdedup (l : list pykey) : list pykey :=
   match l with
   | [] => []
-  | k :: t => if kmem k t then kdedup t else k :: kdedup t
+  | k :: t => k :: filter (fun x => negb (key_eqb k x)) (kdedup t)
   end.
 
 (* ---------- Options ---------- *)
